@@ -67,6 +67,17 @@ func TestC05LRU(t *testing.T) {
 					}
 				}
 			},
+			"failfetch": func(t *rapid.T) {
+				// a backend fetch that fails (before, or part-way through, the
+				// stream; size announced or not): it may make room for itself but
+				// must leave nothing behind that makes LATER items evict without need
+				m.Cfg.Failures, m.FetchFaults = true, []string{"err-before", "nil-reader-no-err", "stream-err", "stream-err", "clean-eof", "clean-eof"}
+				defer func() { m.Cfg.Failures, m.FetchFaults = false, nil }() // (FetchKV may skip the step)
+				ob := m.ObserveBefore()
+				key, logical, hit := m.FetchKV(t)
+				n := m.CheckLRU(t, ob, "failput:fetch", key, logical, hit) // ("failput": a miss is the expected outcome)
+				shape = append(shape, fmt.Sprintf("failfetch:%v:%d", hit, n))
+			},
 			"get": func(t *rapid.T) {
 				ob := m.ObserveBefore()
 				m.Get(t)
